@@ -37,6 +37,8 @@ def run(ctx):
             ctx.count('probe_cells', st['cells'])
             # rounding matrix: every result scale x rounding situation (exact / below / tie even / tie odd / above / carry-out), directed construction
             pts = probes.op_probes(pty, name, 1 if ctx.tier == 'quick' else 2)
+            if name == 'mul':
+                pts = pts + probes.mul_sparse_probes(pty, 6 if ctx.tier == 'quick' else 24)     # dense x dense products in extreme rounding situations
             run_points(ctx, prog, 'GCR', '%s::%s' % (pty.name, name), path, pty, pts, posit_binary_spec(pty, f))
     # R10 with one symbolic operand: a (+/-) b for a constant a = 2^s * 1.0 or 2^s * 1.1..1 and *every* b of a regime cell placed so that the
     # exact result is a routing of b's bits (no literal meets a one or a carry); then the rounding cases of the result.  Proves alignment,
